@@ -272,8 +272,17 @@ func qrAlgorithm(inSitu *InSitu, epsilon float64) (Matrix, Matrix, error) {
     u = u_
   }
 
+  // the number of QR steps is bounded, otherwise the algorithm does not
+  // terminate if the convergence criterion cannot be met (e.g. if entries
+  // overflow or epsilon is smaller than the machine precision permits)
+  maxIterations := 10000 + 1000*n*n
+
   // apply Francis QR steps
-  for p, q := 0, 0; q < n-1; {
+  for p, q, k := 0, 0, 0; q < n-1; k++ {
+
+    if k > maxIterations {
+      return nil, nil, fmt.Errorf("QR algorithm did not converge")
+    }
 
     for i := 0; i < n-1; i++ {
       h11 := h.ConstAt(i  ,i  ).GetFloat64()
@@ -306,7 +315,10 @@ func qrAlgorithm(inSitu *InSitu, epsilon float64) (Matrix, Matrix, error) {
       continue
     }
     // run QR steps until convergence
-    for {
+    for k := 0; ; k++ {
+      if k > maxIterations {
+        return nil, nil, fmt.Errorf("QR algorithm did not converge")
+      }
       h11 := h.ConstAt(i  ,i  ).GetFloat64()
       h21 := h.ConstAt(i+1,i  ).GetFloat64()
       h22 := h.ConstAt(i+1,i+1).GetFloat64()
